@@ -525,10 +525,34 @@ func c38BlockExplains(dir, series, field string, ts, start, end int64) bool {
 // stepExport: oracle C.
 func (c *c38Hist) stepExport(n int) {
 	var start, end int64
-	switch c.rg.Intn(6) {
-	case 0:
+	stats := c.s.Eng().FileStore.Stats()
+	switch k := c.rg.Intn(8); {
+	case k >= 6 && len(stats) > 0:
+		// a range boundary on the first or last timestamp of a TSM file: the per-file
+		// inside / overlapping / outside classification decides at exactly these values
+		f := stats[c.rg.Intn(len(stats))]
+		edge := vkit.Pick(c.rg, []int64{f.MinTime, f.MaxTime})
+		other := int64(c.rg.Intn(16))*100 + int64(c.rg.Intn(3)-1)*int64(c.rg.Intn(60))
+		if c.rg.Chance(1, 3) {
+			g := stats[c.rg.Intn(len(stats))]
+			other = vkit.Pick(c.rg, []int64{g.MinTime, g.MaxTime})
+		}
+		start, end = edge, other
+		if start > end {
+			start, end = end, start
+		}
+		switch c.rg.Intn(4) {
+		case 0, 1: // the file begins exactly where the range ends
+			end = f.MinTime
+			start = end - int64(1+c.rg.Intn(500))
+		case 2: // the file ends exactly where the range begins
+			start = f.MaxTime
+			end = start + int64(1+c.rg.Intn(500))
+		}
+		c.r.Event("exports_with_a_boundary_on_a_file_edge", 1)
+	case k == 0:
 		start, end = -1000, 2000 // everything on the grid
-	case 1:
+	case k == 1:
 		start = int64(c.rg.Intn(16))*100 + 1 // between two grid slots: empty
 		end = start + 50
 	default:
@@ -618,16 +642,20 @@ func (c *c38Hist) stepExport(n int) {
 				w := c38Wit{Case: c.caseNo, Step: "export", Ops: c.ops, Files: srcFiles, Archive: c38Names(ents), Range: rng, Series: key, Field: f,
 					Want: sk.FmtPts(c.m.Read(key, f, start, end, true)), Got: sk.FmtPts(got)}
 				for _, p := range all {
-					if p.T > start && p.T < end {
-						inRange++
-					}
-					if p.T <= start || p.T >= end { // boundary points: either
+					// the range is closed: Export streams a file lying in [start,end] whole and filters the
+					// others with start <= t <= end (documented for the backup -start/-end options as
+					// "include all points starting with" / "exclude all points after")
+					if p.T < start || p.T > end {
 						continue
+					}
+					inRange++
+					if p.T == start || p.T == end {
+						c.r.Event("export_boundary_points_verified", 1)
 					}
 					g, ok := gm[p.T]
 					if !ok {
-						w.Detail = fmt.Sprintf("point %d:%s lies inside (%d,%d) but is missing after import", p.T, p.V, start, end)
-						c.r.Violation("export_missing_point", nil, w)
+						w.Detail = fmt.Sprintf("point %d:%s lies inside [%d,%d] but is missing after import", p.T, p.V, start, end)
+						c.r.Violation("export_missing_point", map[string]string{"on_boundary": fmt.Sprint(p.T == start || p.T == end)}, w)
 						return
 					}
 					if g != p.V {
@@ -726,7 +754,7 @@ func TestC38(t *testing.T) {
 	defer r.Finish()
 	r.Rule("case = random history (6–18 of write/snapshot/delete/compaction with 2–5 points per block/reopen; half of the histories without deletes) on a real shard, followed by incremental Backup(since) with explicit mtimes, full Backup→Restore into a fresh shard, and two Export(start,end)→Import into empty shards; compared with model M1. Non-trivial: model holds ≥5 points and ≥1 TSM file exists. Distinct = hash of the op log (includes file names and archives).")
 	r.Assume("points exactly at start or end of an export range may be exported or not", "files with mtime == since may be in the incremental archive or not", "Import's re-enabled background compaction loop is switched off again before reading (its first tick is 1 s away)")
-	n := r.N(40, 600)
+	n := r.N(160, 800)
 	for i := 0; i < n; i++ {
 		c38History(r, i)
 	}
